@@ -323,6 +323,9 @@ func init() {
 				progs = append(progs, prog{fmt.Sprintf("K%d", i), s})
 			}
 			for _, s := range gen.ScaledFamilies(true) {
+				if c.Quick() && len(s.Src) > 400000 && strings.HasPrefix(s.Name, "constpool-") {
+					continue // pools of more than 65536 constants: thorough tier only (half a megabyte of dump each)
+				}
 				progs = append(progs, prog{"S:" + s.Name, s.Src})
 			}
 			const chunk = 2048
